@@ -357,126 +357,14 @@ pub fn evaluate(c: &CompileCheck) -> Verdict {
     v
 }
 
-/// Shapes aimed at expression growth: chains of products of sums, repeated squaring.
-fn explosive(rng: &mut Rng) -> String {
-    let mut a = gen::Asm::new();
-    let k = rng.range(3, 6);
-    for c in 0..k {
-        if rng.coin() {
-            a.input(c);
-        } else {
-            a.add(c, rng.range(1, 4));
-        }
-    }
-    let t = k;
-    let t2 = k + 1;
-    let steps = rng.urange(2, 7);
-    let wrap = rng.chance(1, 2);
-    let body = |a: &mut gen::Asm, rng: &mut Rng| {
-        for _ in 0..steps {
-            let x = rng.range(0, k - 1);
-            let mut y = rng.range(0, k - 2);
-            if y >= x {
-                y += 1;
-            }
-            match rng.below(3) {
-                0 => {
-                    // x = x * y (y preserved)
-                    a.while_(x, |a| {
-                        a.while_(y, |a| {
-                            a.add(t, 1);
-                            a.add(t2, 1);
-                            a.add(y, -1);
-                        });
-                        a.while_(t2, |a| {
-                            a.add(y, 1);
-                            a.add(t2, -1);
-                        });
-                        a.add(x, -1);
-                    });
-                    a.while_(t, |a| {
-                        a.add(x, 1);
-                        a.add(t, -1);
-                    });
-                }
-                1 => {
-                    // x = x * x
-                    a.while_(x, |a| {
-                        a.add(t, 1);
-                        a.add(t2, 1);
-                        a.add(x, -1);
-                    });
-                    a.while_(t, |a| {
-                        a.while_(t2, |a| {
-                            a.add(x, 1);
-                            a.add(y, 1);
-                            a.add(t2, -1);
-                        });
-                        a.while_(y, |a| {
-                            a.add(t2, 1);
-                            a.add(y, -1);
-                        });
-                        a.add(t, -1);
-                    });
-                    a.clear(t2);
-                }
-                _ => {
-                    // x += y + const
-                    a.while_(y, |a| {
-                        a.add(x, 1);
-                        a.add(t, 1);
-                        a.add(y, -1);
-                    });
-                    a.while_(t, |a| {
-                        a.add(y, 1);
-                        a.add(t, -1);
-                    });
-                    a.add(x, rng.range(1, 3));
-                }
-            }
-        }
-    };
-    if wrap {
-        let c = k + 2;
-        a.input(c);
-        a.while_(c, |a| {
-            body(a, rng);
-            a.add(c, -1);
-        });
-    } else {
-        body(&mut a, rng);
-    }
-    for c in 0..k {
-        a.output(c);
-    }
-    a.out
-}
-
-fn deep_nesting(rng: &mut Rng) -> String {
-    let depth = rng.urange(20, 200);
-    let mut s = String::from(",");
-    for i in 0..depth {
-        s.push('[');
-        if i % 7 == 3 {
-            s.push_str(*rng.pick(&[">+<", "-", ".", ">", "<+>"][..]));
-        }
-    }
-    s.push_str(*rng.pick(&["-", ">+<-", ".-", ""][..]));
-    for i in 0..depth {
-        if i % 5 == 1 {
-            s.push_str(*rng.pick(&["-", ">", "<", "+"][..]));
-        }
-        s.push(']');
-    }
-    s.push('.');
-    s
-}
-
 pub fn generate(rng: &mut Rng, prop: &str, corpus: &[String]) -> CompileCheck {
     let width = *rng.pick(&crate::props::WIDTHS);
-    let program = match rng.below(10) {
-        0 | 1 => explosive(rng),
-        2 => deep_nesting(rng),
+    let program = match rng.below(14) {
+        10 | 11 => gen::program(rng, gen::Family::IoPressure, width, corpus, false),
+        12 => gen::program(rng, gen::Family::Idioms, width, corpus, false),
+        13 => gen::program(rng, gen::Family::Brackets, width, corpus, false),
+        0 | 1 => gen::explosive(rng),
+        2 => gen::deep_nesting(rng),
         3 => gen::program(rng, gen::Family::Pressure, width, corpus, false),
         4 | 5 => gen::program(rng, gen::Family::Raw, width, corpus, false),
         6 => gen::program(rng, gen::Family::Corpus, width, corpus, false),
